@@ -11,7 +11,9 @@ def has_uspace(b):
 
 KEYS = [b"Package", b"Version", b"Depends", b"Description", b"Files", b"X-Custom", b"Source", b"Architecture", b"a", b"B2", b"Checksums-Sha256", b"k:",
         # field names that are also Go names inside the types a document is decoded into (the embedded member and its members)
-        b"Paragraph", b"Values", b"Order"]
+        b"Paragraph", b"Values", b"Order",
+        # names that differ from another one only in letter case: two fields for the reader and for the writer alike
+        b"x-custom", b"PACKAGE"]
 WORDS = [b"foo", b"bar (>= 1.0)", b"a: b", b"1.0-1", b"x  y", b"caf\xc3\xa9", b"Universit\xc3\xa0", b"\xc3\x85ngstr\xc3\xb6m \xc3\x85", b"\xe4\xb8\xa0", b".", b"-----BEGIN PGP SIGNED MESSAGE-----", b"-----BEGIN PGP SIGNATURE-----", b"#not-a-comment", b"-x", b"a,", b"| b", b"::", b"\xff\xfe", b"z" * 30, b".x", b"..", b"a."]
 
 
